@@ -15,9 +15,9 @@ import (
 type vfC14Item struct {
 	Cmd   *vfReq `json:",omitempty"` // an unrelated, non-read/write, non-close request in the middle of the pipeline
 	Close bool   `json:",omitempty"`
-	H     int  // handle index
-	Len   int  `json:",omitempty"`
-	Off   int  `json:",omitempty"` // READ offset
+	H     int    // handle index
+	Len   int    `json:",omitempty"`
+	Off   int    `json:",omitempty"` // READ offset
 }
 
 type vfCaseC14 struct {
